@@ -117,7 +117,7 @@ def gen(seed, run, sub="clean", tier="quick"):
     return {
         "lane": "c16", "sub": sub, "transport": transport, "via": via, "cfg": cfg,
         "stmts": stmts, "replies": replies, "faults": faults, "ops": ops, "draws": draws,
-        "readings": dict(readings, **UNSOL_READINGS), "slow": slow,
+        "readings": dict(readings, **UNSOL_READINGS), "slow": slow, "ctx": r.random() < 0.2,
         "eol": r.choice(["\n", "\r\n", ""]), "max_steps": 60000,
         "sched": common.gen_sched(r, "%s/%s/c16" % (seed, run), est_steps=300 + 250 * n),
     }
@@ -255,7 +255,10 @@ def execute(scn, guide=None, keep=False, observer=None):
             if op[0] == "connect":
                 s0 = k.ev("connect-call")
                 try:
-                    w.connect()
+                    if scn.get("ctx"):
+                        w.__enter__()              # `with writer:` form
+                    else:
+                        w.connect()
                     hist.append(("connect-ret", None, k.ev("connect-ret"), None))
                 except SimAbort:
                     raise
@@ -298,7 +301,10 @@ def execute(scn, guide=None, keep=False, observer=None):
             elif op[0] == "disconnect":
                 hist.append(("disc-call", None, k.ev("disc-call"), None))
                 try:
-                    w.disconnect(op[1])
+                    if scn.get("ctx") and op[1]:
+                        w.__exit__(None, None, None)
+                    else:
+                        w.disconnect(op[1])
                     hist.append(("disc-ret", None, k.ev("disc-ret"), None))
                 except SimAbort:
                     raise
